@@ -1673,29 +1673,34 @@ pub proof fn lemma_slice_read(a0: Seq<Out>, l: int, buf0: Seq<Out>, buf: Seq<Out
     }
 }
 
-/// what a `read` into the subslice buf[read ..] means for the whole buffer
+/// what a `read` into the subslice buf[read ..] means for the whole buffer (an implication, so that a call that does not
+/// satisfy the hypothesis learns nothing from it)
 pub proof fn lemma_read_into_tail(e: Seq<Out>, rel: int, buf0: Seq<Out>, buf1: Seq<Out>, read: int, n: int)
     requires
         0 <= read <= buf0.len(),
         buf1.len() == buf0.len(),
-        0 <= rel < e.len(),
-        read_post(e, rel, buf0.subrange(read, buf0.len() as int), buf1.subrange(read, buf0.len() as int), n),
-        buf1.subrange(0, read) =~= buf0.subrange(0, read),
     ensures
-        n == min(e.len() - rel, buf0.len() - read),
-        forall|j: int| read <= j < read + n ==> #[trigger] buf1[j] == e[rel + j - read],
-        forall|j: int| 0 <= j < buf0.len() && !(read <= j < read + n) ==> #[trigger] buf1[j] == buf0[j],
+        0 <= rel < e.len()
+            && read_post(e, rel, buf0.subrange(read, buf0.len() as int), buf1.subrange(read, buf0.len() as int), n)
+            && buf1.subrange(0, read) =~= buf0.subrange(0, read)
+        ==> {
+            &&& n == min(e.len() - rel, buf0.len() - read)
+            &&& forall|j: int| read <= j < read + n ==> #[trigger] buf1[j] == e[rel + j - read]
+            &&& forall|j: int| 0 <= j < buf0.len() && !(read <= j < read + n) ==> #[trigger] buf1[j] == buf0[j]
+        },
 {
     let l = buf0.len() as int;
-    assert(buf0.subrange(read, l).len() == l - read);
-    assert forall|j: int| read <= j < read + n implies #[trigger] buf1[j] == e[rel + j - read] by {
-        assert(buf1.subrange(read, l)[j - read] == e[rel + (j - read)]);
-    }
-    assert forall|j: int| 0 <= j < l && !(read <= j < read + n) implies #[trigger] buf1[j] == buf0[j] by {
-        if j < read {
-            assert(buf1.subrange(0, read)[j] == buf0.subrange(0, read)[j]);
-        } else {
-            assert(buf1.subrange(read, l)[j - read] == buf0.subrange(read, l)[j - read]);
+    if 0 <= rel < e.len() && read_post(e, rel, buf0.subrange(read, l), buf1.subrange(read, l), n) && buf1.subrange(0, read) =~= buf0.subrange(0, read) {
+        assert(buf0.subrange(read, l).len() == l - read);
+        assert forall|j: int| read <= j < read + n implies #[trigger] buf1[j] == e[rel + j - read] by {
+            assert(buf1.subrange(read, l)[j - read] == e[rel + (j - read)]);
+        }
+        assert forall|j: int| 0 <= j < l && !(read <= j < read + n) implies #[trigger] buf1[j] == buf0[j] by {
+            if j < read {
+                assert(buf1.subrange(0, read)[j] == buf0.subrange(0, read)[j]);
+            } else {
+                assert(buf1.subrange(read, l)[j - read] == buf0.subrange(read, l)[j - read]);
+            }
         }
     }
 }
